@@ -95,6 +95,20 @@ def nan2(theta, N, seed):
     return _log(theta, N, seed, out)
 
 
+def mutating2(theta, N, seed):
+    """A model that converts its parameter vector IN PLACE (percent -> fraction): the caller's array must not be the live proposal."""
+    _enter(theta, N, seed)
+    th_in = np.array(theta, dtype=float).copy()
+    try:
+        theta *= 0.01
+    except (TypeError, ValueError):
+        pass
+    out = np.tile(np.array([th_in[0], th_in[-1] + 10.0]), (N, 1)) + np.arange(N)[:, None] * 1e-3
+    if LOGGING:
+        CALLS.append((th_in, int(N), seed, out.copy()))
+    return out
+
+
 def const2(theta, N, seed):
     _enter(theta, N, seed)
     out = np.ones((N, 2)) * 0.25
@@ -128,4 +142,4 @@ def model_script(theta, N, seed):
     return _log(theta, N, seed, out)
 
 
-MODELS = {f.__name__: f for f in (gauss1, gauss2, ident2, huge2, inf2, nan2, const2, slow_uneven2, slow_ident2, model_script)}
+MODELS = {f.__name__: f for f in (gauss1, gauss2, ident2, huge2, inf2, nan2, mutating2, const2, slow_uneven2, slow_ident2, model_script)}
